@@ -137,6 +137,8 @@ pub struct WCfg {
     pub no_picks: bool,
     /// how many times per history a task may be suspended at a preemption point (0 = not explored)
     pub max_parks: u32,
+    /// a suspended task continues after this many further events at the latest (`Resume` = earlier)
+    pub park_span: u32,
     /// default resolution of a part is failure (pay fails on the default path)
     pub default_part_fails: bool,
     /// C13 differential: request labels of the baseline run (same scenario without the pass-through HTLCs)
@@ -186,6 +188,7 @@ impl WCfg {
             max_holds: 0,
             no_picks: false,
             max_parks: 1,
+            park_span: 1,
             default_part_fails: false,
             baseline_reqs: None,
             max_depth: 90,
@@ -388,6 +391,9 @@ pub struct W {
     last_step: sched::StepInfo,
     picks_used: u32,
     parks_used: u32,
+    /// events since the task was suspended / a task stayed suspended over more than one event in this history
+    park_age: u32,
+    long_park: bool,
     b_trace: Vec<String>,
     steps: usize,
 }
@@ -429,6 +435,17 @@ impl W {
             return;
         }
         if !self.has(property) {
+            return;
+        }
+        if self.long_park
+            && !matches!(
+                (property, clause),
+                ("C05", "no-pay-while-live") | ("C08", "intent-before-pay") | ("C08", "succeeded-holds-preimage") | ("C02", "no-fail-while-live") | ("C06", "no-panic") | ("C06", "answered") | ("C01", "key-from-completed-payment") | ("C01", "key-hashes-to-htlc") | ("C07", "identical-responses")
+            )
+        {
+            // While a task stays suspended over several events (possibly holding the payments lock) the reference
+            // bookkeeping of what the plugin "holds" no longer matches what it has registered. Only the clauses
+            // that do not depend on it are judged in such a history.
             return;
         }
         if self.parks_used > 0 && matches!((property, clause), ("C04", "safe-expiry") | ("C06", "answered-within-timeout") | ("C11", "not-much-later")) {
@@ -889,9 +906,17 @@ impl W {
         for (p, m, r) in std::mem::take(&mut self.held_notes) {
             self.note_answer(&p, m, &r);
         }
-        // a task suspended at a preemption point continues now, behind whatever this event made runnable
-        if sched::release_parked() > 0 {
-            self.trace.push("  [scheduler] the suspended task continues".to_string());
+        // a task suspended at a preemption point continues on `Resume`, or after `park_span` further events (the
+        // other tasks, the node and the clock go on meanwhile), behind whatever this event made runnable
+        if sched::parked() > 0 {
+            self.park_age += 1;
+            if matches!(ev, Ev::Resume) || self.park_age >= self.cfg.park_span {
+                sched::release_parked();
+                self.park_age = 0;
+                self.trace.push("  [scheduler] the suspended task continues".to_string());
+            } else if self.park_age >= 1 {
+                self.long_park = true;
+            }
         }
         // run the plugin to quiescence
         let inc = self.inc.as_mut().unwrap();
@@ -1509,6 +1534,7 @@ impl W {
         sched::take_select_log();
         sched::clear_select_queue();
         sched::drop_parked();
+        self.park_age = 0;
         self.sim.with(|s| s.crash(apply));
         if lose {
             for t in self.last_step_responses.clone() {
@@ -1913,6 +1939,8 @@ impl Model for W {
             last_step: sched::StepInfo::default(),
             picks_used: 0,
             parks_used: 0,
+            park_age: 0,
+            long_park: false,
             b_trace: Vec::new(),
             steps: 0,
         };
@@ -2039,7 +2067,7 @@ impl Model for W {
         h.add(&(self.vtime_ms, self.advances, self.height_events, self.crashes, self.faults, self.inc_no, self.told_height, self.idle_advances, self.stalls, self.holds, self.hold_armed, self.held_evs.len()));
         h.add(&self.last_step_responses);
         h.add(&self.mon);
-        h.add(&(sched::parked(), self.parks_used));
+        h.add(&(sched::parked(), self.parks_used, self.park_age, self.long_park));
         h.value()
     }
 
